@@ -66,9 +66,9 @@ def check_case(acc, parts, origin):
         t2 = base.parse(p, "exec").value
         if off:
             ast.increment_lineno(t2, off)
-        expected.extend(ast.dump(s, include_attributes=True) for s in t2.body)
+        expected.extend(base.stable_dump(s) for s in t2.body)
         off += nlines(p)
-    observed = [ast.dump(s, include_attributes=True) for s in out.value.body]
+    observed = [base.stable_dump(s) for s in out.value.body]
     if expected != observed:
         k = next((i for i, (a, b) in enumerate(zip(expected, observed)) if a != b), min(len(expected), len(observed)))
         acc.violation("whole-differs-from-parts", case, {"n_expected": len(expected), "n_observed": len(observed), "first_difference_at_statement": k,
